@@ -899,6 +899,42 @@ Definition l2tp_dispatch_ppp (v : variant) (cfg : dcfg) (frame : bytes) : result
   p <- slf 2 fr;; handle_frame v cfg proto p.
 
 (* ------------------------------------------------------------------ *)
+(* plugins/auth/radius/transport.go readLoop: what a datagram from the server's address does to the table of outstanding
+   requests.  A datagram is looked up by identifier, verified against the outstanding request (isAuthenticReply) and only
+   then consumes the slot; everything else — unparseable, unknown identifier, failed Response-/Message-Authenticator — is
+   dropped WITHOUT touching the table.  [claim_first = true] is the alternative that clears the slot at lookup time. *)
+Inductive dgram :=
+| DGarbage                 (* radius.Parse rejects it *)
+| DJunk (id : N)           (* parses, but is not an authentic reply to the outstanding request with this identifier *)
+| DGenuine (id : N).       (* authentic reply to the outstanding request with this identifier *)
+Definition pend_has (id : N) (p : list N) : bool := existsb (N.eqb id) p.
+Definition pend_del (id : N) (p : list N) : list N := filter (fun x => negb (x =? id)) p.
+(* new table, and the identifier whose requester receives the reply (if any) *)
+Definition rad_step (claim_first : bool) (p : list N) (d : dgram) : list N * option N :=
+  match d with
+  | DGarbage => (p, None)
+  | DJunk id => if claim_first && pend_has id p then (pend_del id p, None) else (p, None)
+  | DGenuine id => if pend_has id p then (pend_del id p, Some id) else (p, None)
+  end.
+Fixpoint rad_run (claim_first : bool) (p : list N) (ds : list dgram) : list N * list N :=
+  match ds with
+  | [] => (p, [])
+  | d :: r => let '(p1, o) := rad_step claim_first p d in
+              let '(p2, os) := rad_run claim_first p1 r in
+              (p2, match o with Some id => id :: os | None => os end)
+  end.
+Definition is_genuine (d : dgram) : bool := match d with DGenuine _ => true | _ => false end.
+(* the harness history: the outstanding request has identifier 1; kinds 0 forged same id, 1 forged other id, 2 garbage,
+   3 reply signed with another secret, 4 stale reply (other request authenticator), 5 truncated genuine reply,
+   6 one forged datagram for every identifier, 9 the genuine reply *)
+Definition dgrams_of (b : bytes) : list dgram :=
+  flat_map (fun k => if k =? 9 then [DGenuine 1]
+                     else if (k =? 0) || (k =? 3) || (k =? 4) then [DJunk 1]
+                     else if k =? 1 then [DJunk 2]
+                     else if k =? 6 then [DJunk 0; DJunk 1; DJunk 2]
+                     else [DGarbage]) b.
+
+(* ------------------------------------------------------------------ *)
 (* Bounded worker pool / bounded hand-off queue on the receive path:
    internal/pppoe/dhcpv6.go dispatchDHCPv6 (16-slot dhcp6Sem, the handler runs under the session lock s.mu, every
    worker needs s.mu before it can finish), internal/pppoe/session.go onIPv6CPUp (raKicks), internal/ipoe
@@ -1037,6 +1073,7 @@ Definition run (v : variant) (entry : N) (na : list N) (ba : list bytes) : resul
   if entry =? 51 then (rmap pkt4_toks (dhcp_parse b)) else
   if entry =? 52 then (rmap msg4_toks (parse_message4 b)) else
   if entry =? 70 then Ok (pool_burst (arg 0 na) (arg 1 na)) else
+  if entry =? 72 then Ok [tbool (pend_has 1 (snd (rad_run false [1] (dgrams_of b))))] else
   if entry =? 71 then Ok (pool_trace false (arg 0 na) pool0 (events_of b)) else
   if entry =? 61 then rmap (fun x => [tbool x]) (is_authentic_reply b (barg 1 ba) (barg 2 ba)) else
   if entry =? 62 then rmap (fun x => [tbool x]) (validate_request_auth b (barg 1 ba)) else
